@@ -37,7 +37,7 @@ enum { K_BITS, K_SOLID, K_LIN, K_RAD, K_CON };
 
 typedef struct {
     int used, kind;
-    pixman_format_code_t fmt; int w, h, stride; size_t size; uint8_t *data, *snap, *rdata;
+    pixman_format_code_t fmt; int w, h, stride; size_t size; uint8_t *data, *snap, *rdata, *rbase;
     long long pixseed;
     pixman_color_t color;
     pixman_gradient_stop_t stops[8]; int nstops;
@@ -111,6 +111,37 @@ static const char *acc_class(pixman_image_t *im)
 static uint64_t pst;
 static uint32_t prnd(void){ uint64_t z=(pst+=0x9E3779B97F4A7C15ULL); z=(z^(z>>30))*0xBF58476D1CE4E5B9ULL; z=(z^(z>>27))*0x94D049BB133111EBULL; return (uint32_t)((z^(z>>31))>>16); }
 
+/* The address of the pixel buffer is an INPUT of the library (tiled fast paths split the work at cache-line boundaries of the
+ * destination, which is observable when source and destination are the same image), so the long-lived buffer and the buffer
+ * of its fresh replica get the same placement relative to a 4096-byte boundary; the placement itself varies with the pixel
+ * seed of the request, never with the state of the heap. IMGSTATE_REPLICA_SKEW=<bytes> (experiments only) shifts the replica. */
+static void *mem_base[NIMG][3];
+static uint8_t *place(int slot,int which,size_t size,size_t off)
+{
+    void *b=NULL; if(posix_memalign(&b,4096,size+off+64)) return NULL; mem_base[slot][which]=b; return (uint8_t*)b+off;
+}
+static void place_buffers(himg_t *h)
+{
+    int slot=(int)(h-P); size_t off=(size_t)((((h->pixseed%64)+64)%64)*4);     /* word aligned as the API demands; all 16 word offsets of a cache line, 4 lines */
+    h->data=place(slot,0,h->size+16,off); h->snap=place(slot,1,h->size+16,off);
+    h->rbase=place(slot,2,h->size+16+256,off); h->rdata=h->rbase;
+}
+/* Placement of the replica buffers for one use.  When no image is read AND written by the call (no aliasing of a source, a
+ * mask or one of their alpha maps with the destination or its alpha map) the outcome must not depend on where the buffers
+ * lie, so the replicas are deliberately moved by a request-determined number of words; with aliasing the order in which a
+ * tiled fast path walks the destination is visible, the address is an input, and the replicas keep the original placement. */
+static void place_replicas(int *ids,int n,int opno)
+{
+    int wr[NIMG]={0},rd[NIMG]={0}; int d=ids[n-1];
+    wr[d]=1; if(P[d].am>=0) wr[P[d].am]=1;
+    for(int i=0;i<n-1;i++){ rd[ids[i]]=1; if(P[ids[i]].am>=0) rd[P[ids[i]].am]=1; }
+    int alias=0; for(int k=0;k<npool;k++) if(wr[k]&&rd[k]) alias=1;
+    const char *sk=getenv("IMGSTATE_REPLICA_SKEW");
+    for(int k=0;k<npool;k++) if(P[k].kind==K_BITS){
+        size_t skew= sk?(size_t)atoi(sk): alias?0:(size_t)(((P[k].pixseed/64+opno*5+k)%16)*4);
+        P[k].rdata=P[k].rbase+skew;
+    }
+}
 static void fill_pixels(himg_t *h)
 {
     pst=(uint64_t)h->pixseed*0x9E3779B97F4A7C15ULL+77;
@@ -222,7 +253,7 @@ static int nuses, mism;
 static void free_pool(void)
 {
     for(int k=0;k<npool;k++) if(P[k].img && P[k].am>=0) pixman_image_set_alpha_map(P[k].img,NULL,0,0);
-    for(int k=0;k<npool;k++){ if(P[k].img) pixman_image_unref(P[k].img); free(P[k].data); free(P[k].snap); free(P[k].rdata); }
+    for(int k=0;k<npool;k++){ if(P[k].img) pixman_image_unref(P[k].img); for(int q=0;q<3;q++){ free(mem_base[k][q]); mem_base[k][q]=NULL; } }
     memset(P,0,sizeof P); npool=0;
 }
 static int users_of(int i){ int n=0; for(int k=0;k<npool;k++) if(P[k].am==i) n++; return n; }
@@ -246,7 +277,7 @@ static int do_use(seg_t *g, int opno)
     long long *a=&g->v[1+n]; int na=g->n-1-n; int kind=(int)a[0];
     for(int k=0;k<npool;k++) if(P[k].kind==K_BITS) memcpy(P[k].snap,P[k].data,P[k].size);
     for(int pass=0;pass<2;pass++){
-        if(pass==1) make_replicas();
+        if(pass==1){ place_replicas(ids,n,opno); make_replicas(); }
         #define IM(k) (pass?P[k].rep:P[k].img)
         if(kind==0){
             if(na<10||n<2) return 0;
@@ -260,6 +291,8 @@ static int do_use(seg_t *g, int opno)
         #undef IM
     }
     nuses++;
+    { const char *cf=getenv("IMGSTATE_CRC_OUT");     /* experiments: content hash of every pixel buffer after each use (two library builds can be diffed) */
+      if(cf){ FILE *f=fopen(cf,"a"); if(f){ for(int k=0;k<npool;k++) if(P[k].kind==K_BITS){ uint64_t hsh=1469598103934665603ULL; for(size_t q=0;q<P[k].size;q++){ hsh^=P[k].data[q]; hsh*=1099511628211ULL; } fprintf(f,"%016llx ",(unsigned long long)hsh); } fprintf(f,"\n"); fclose(f); } } }
     for(int k=0;k<npool&&!mism;k++) if(P[k].kind==K_BITS && memcmp(P[k].data,P[k].rdata,P[k].size)){
         size_t off=0; while(P[k].data[off]==P[k].rdata[off]) off++;
         mism=1; snprintf(orc,sizeof orc,"MISMATCH op#%d pixels of image %d differ from the fresh replica at byte %zu (row %zu): long-lived %02x replica %02x",opno,k,off,off/P[k].stride,P[k].data[off],P[k].rdata[off]);
@@ -289,9 +322,9 @@ static int run_line(char *line, FILE *fi, FILE *fo)
             himg_t *h=&P[npool]; memset(h,0,sizeof *h); h->kind=(int)g.v[0]; h->am=-1; h->filter=PIXMAN_FILTER_NEAREST; h->used=1;
             switch(h->kind){
             case K_BITS: if(g.n!=4){bad=1;break;} h->fmt=(pixman_format_code_t)g.v[1]; h->w=(int)g.v[2]; h->h=(int)g.v[3];
-                if(h->w<0||h->h<0||h->w>64||h->h>64||PIXMAN_FORMAT_BPP(h->fmt)<1){bad=1;break;}
+                if(h->w<0||h->h<0||h->w>256||h->h>64||PIXMAN_FORMAT_BPP(h->fmt)<1){bad=1;break;}
                 h->stride=((h->w*(int)PIXMAN_FORMAT_BPP(h->fmt)+31)/32)*4; if(PIXMAN_FORMAT_BPP(h->fmt)==128) h->stride=h->w*16;
-                h->size=(size_t)h->stride*h->h; h->data=malloc(h->size+16); h->snap=malloc(h->size+16); h->rdata=malloc(h->size+16); break;
+                h->size=(size_t)h->stride*h->h; h->data=NULL; break;   /* buffers are placed by the X segment (pixseed fixes their alignment) */
             case K_SOLID: if(g.n!=2){bad=1;break;} h->color.alpha=(uint16_t)g.v[1]; break;
             case K_LIN: case K_CON: if(!parse_stops(h,&g.v[1],g.n-1)) bad=1; break;
             case K_RAD: if(g.n<2||!parse_stops(h,&g.v[2],g.n-2)) bad=1; break;
@@ -302,13 +335,13 @@ static int run_line(char *line, FILE *fi, FILE *fo)
         if(!strcmp(g.w,"X")){
             if(g.n<1||g.v[0]<0||g.v[0]>=npool){bad=1;break;}
             himg_t *h=&P[g.v[0]];
-            if(h->kind==K_BITS){ h->pixseed=g.n>1?g.v[1]:0; }
+            if(h->kind==K_BITS){ h->pixseed=g.n>1?g.v[1]:0; if(!h->data) place_buffers(h); }
             else if(h->kind==K_SOLID){ if(g.n<4){bad=1;break;} h->color.red=(uint16_t)g.v[1]; h->color.green=(uint16_t)g.v[2]; h->color.blue=(uint16_t)g.v[3]; }
             else for(int i=0;i<6&&i+1<g.n;i++) h->geo[i]=g.v[i+1];
             continue;
         }
         /* first op: materialise the pool */
-        if(first){ first=0; for(int k=0;k<npool;k++){ if(P[k].kind==K_BITS) fill_pixels(&P[k]); P[k].img=create_image(&P[k],P[k].data); if(!P[k].img){bad=1;break;} } if(bad) break; }
+        if(first){ first=0; for(int k=0;k<npool;k++){ if(P[k].kind==K_BITS){ if(!P[k].data) place_buffers(&P[k]); fill_pixels(&P[k]); } P[k].img=create_image(&P[k],P[k].data); if(!P[k].img){bad=1;break;} } if(bad) break; }
         if(g.n<1){bad=1;break;}
         opno++;
         if(opno>1) strcat(obs,";");
@@ -433,11 +466,13 @@ static void emit_clip(int i,long long *c){ EMIT(" ; C %d 1",i); for(int k=0;k<c[
 static void gen_case(char *buf)
 {
     gp=buf; EMIT("hist");
+    int wide_case=rng_chance(10);   /* rows longer than the 64-pixel chunks in which a destination's alpha map is read */
     for(int k=0;k<NIMG;k++){
         gimg_t *g=&G[k];
         if(k<=3){ g->kind=K_BITS;
             g->fmt= k<2?DESTF[rng_n(NEL(DESTF))]: k==2?SRCF[rng_n(NEL(SRCF))]:ALPHAF[rng_n(NEL(ALPHAF))];
             g->w=rng_range(1,16); g->h=rng_range(1,10); if(k>=2&&rng_chance(25)){ g->w=1; g->h=1; }
+            if(wide_case&&(k==0||k==3||rng_chance(40))){ g->w=rng_range(60,140); g->h=rng_range(1,3); }
             if(k==2&&rng_chance(6)){ if(rng_chance(50)) g->w=0; else g->h=0; }   /* a source without pixels (compute_image_info: PIXMAN_unknown) */
             EMIT(" ; I bits %u %d %d ; X %d %d",(unsigned)g->fmt,g->w,g->h,k,rng_n(1000000));
         } else if(k==4){
@@ -464,7 +499,7 @@ static void gen_case(char *buf)
                 EMIT(" ; U 1 %d 1 %d %d %d %d %d %d %d %d %d",d,OPS[rng_n(NEL(OPS))],rng_n(65536),rng_n(65536),rng_n(65536),rng_chance(50)?65535:rng_n(65536),rng_range(-2,6),rng_range(-2,5),rng_range(3,18),rng_range(2,12)); }
             else { int src=rng_n(NIMG), hasm=rng_chance(55), mask=rng_n(NIMG), d=rng_chance(75)?rng_n(2):rng_range(0,3);
                 if(hasm) EMIT(" ; U 3 %d %d %d",src,mask,d); else EMIT(" ; U 2 %d %d",src,d);
-                EMIT(" 0 %d %d %d %d %d %d %d %d %d",OPS[rng_n(NEL(OPS))],rng_range(-3,5),rng_range(-3,5),rng_range(-3,5),rng_range(-3,5),rng_range(-2,6),rng_range(-2,5),rng_range(1,18),rng_range(1,12)); }
+                EMIT(" 0 %d %d %d %d %d %d %d %d %d",OPS[rng_n(NEL(OPS))],rng_range(-3,5),rng_range(-3,5),rng_range(-3,5),rng_range(-3,5),rng_range(-2,6),rng_range(-2,5),(wide_case&&rng_chance(60))?rng_range(50,150):rng_range(1,18),rng_range(1,12)); }
             uses++; continue;
         }
         int r=rng_n(100);
